@@ -1231,7 +1231,11 @@ class EventBus:
                     monitor_task.cancel()
                 await monitor_task
             except asyncio.CancelledError:
-                pass  # Expected when we cancel the monitor
+                # Expected when we cancel the monitor, but a cancellation of *this* task that arrives
+                # while we wait for the monitor must not be swallowed
+                current_task = asyncio.current_task()
+                if current_task is not None and current_task.cancelling():
+                    raise
             except Exception as e:
                 # logger.debug(f"❌ {self} Handler monitor task cleanup error for {get_handler_name(handler)}#{str(id(handler))[-4:]}({event}): {type(e).__name__}: {e}")
                 pass
